@@ -159,6 +159,10 @@ func RoutePatternMatch(path, pattern string, cfg ...Config) bool {
 	if !config.StrictRouting && len(patternPretty) > 1 {
 		patternPretty = utils.TrimRight(patternPretty, '/')
 	}
+	// ... of the path as well, as request dispatching does
+	if !config.StrictRouting && len(path) > 1 {
+		path = utils.TrimRight(path, '/')
+	}
 
 	parser, _ := routerParserPool.Get().(*routeParser) //nolint:errcheck // only contains routeParser
 	parser.reset()
